@@ -1,7 +1,7 @@
 (* ===== C12 : spline transforms reproduce the mathematical bases they name ===== *)
 From Coq Require Import List QArith Bool Arith.
 Import ListNotations.
-Require Import BSpline BSplineLaws CubicSpline CubicLaws.
+Require Import BSpline BSplineLaws CubicSpline CubicLaws CubicUnique.
 Open Scope Q_scope.
 
 (* ---- B-splines: for every recorded knot vector that is sorted and padded (knots_ok, checked on every case), every degree, every x ---- *)
@@ -102,6 +102,19 @@ Example C12_example : knots_ok (pad_knots 0 [1; 3] 7 3) 3 = true /\
   match natural_F [0; 1; 3; 7] with Some F => natural_F_ok [0; 1; 3; 7] (mfun F) | None => false end = true.
 Proof. vm_compute. split; reflexivity. Qed.
 
+(* ... and the basis is THE cardinal basis: when the knots increase strictly the defining systems are strictly diagonally dominant, so their
+   solution is unique -- any two matrices F, F' passing the checkable predicates agree entry by entry (natural and periodic) *)
+Theorem C12_natural_F_unique : forall kn F F', (2 <= length kn)%nat -> (forall i, (S i < length kn)%nat -> Kq kn i < Kq kn (S i)) ->
+  natural_F_ok kn F = true -> natural_F_ok kn F' = true ->
+  forall m k, (m < length kn)%nat -> (k < length kn)%nat -> F m k == F' m k.
+Proof. exact natural_F_unique. Qed.
+Theorem C12_cyclic_F_unique : forall kn F F', (2 <= length kn)%nat -> (forall i, (S i < length kn)%nat -> Kq kn i < Kq kn (S i)) ->
+  cyclic_F_ok kn F = true -> cyclic_F_ok kn F' = true ->
+  forall m k, (m < length kn - 1)%nat -> (k < length kn - 1)%nat -> F m k == F' m k.
+Proof. exact cyclic_F_unique. Qed.
+
+Print Assumptions C12_natural_F_unique.
+Print Assumptions C12_cyclic_F_unique.
 Print Assumptions C12_bs_nonnegative.
 Print Assumptions C12_bs_sums_to_one_inside_bounds.
 Print Assumptions C12_bs_df_columns.
